@@ -79,7 +79,10 @@ func readBackLarge(ctx context.Context, ndb api.NodeDB, root node.Root, n int, w
 }
 
 func runLargeBatchFamily(r *evid.Run) {
-	n := 130_000
+	n := r.Pick(90_000, 140_000) // above the store's write batch limits (about 80,000 keys, measured)
+	if v := os.Getenv("VERIF_C06_LARGE_N"); v != "" { // debugging aid
+		fmt.Sscan(v, &n)
+	}
 	ctx := context.Background()
 	type lcase struct{ name, backend string }
 	var cases []lcase
